@@ -573,6 +573,18 @@ def _interpreted(ctx, r5, r6, repo):
             ctx.violated(r6, toms, "second scan after the data were refilled in place", f"the second scan evaluated hypotest {len(second)} time(s) on the current data (the first scan needed {n1}): per-point results remembered from an earlier call are reused although the data changed -- the limit is the previous dataset's", expected=f">= 2 fresh evaluations on ['d0_new', 'd1']", found=f"{len(second)} evaluation(s)")
         else:
             ctx.holds(r6, f"{UL}::toms748_scan [second call, data refilled in place]", f"{len(second)} fresh hypotest evaluations on the current data")
+        # third call in the same process: NO hypothesis-test options this time -- none of the earlier calls' options may come back
+        n2 = len(rec["hypotest"])
+        rec["toms748"].clear()
+        w.call_func(ul, [data_list, MODEL], {"level": at("LEVEL")})
+        third = rec["hypotest"][n2:]
+        leaked = sorted({o for h in third for o in h["kw"] if o in opts})
+        if not third:
+            ctx.violated(r6, toms, "third scan, without options", "no hypothesis test is evaluated")
+        elif leaked:
+            ctx.violated(r6, toms, "third scan, without options", f"a scan called WITHOUT hypothesis-test options runs its tests with {leaked}, which an EARLIER scan of the process was given: options are remembered across calls, so the limit solves CLs = level for a test the caller did not ask for", expected="only the scan's own return_expected_set", found=f"options {sorted(third[0]['kw'])}")
+        else:
+            ctx.holds(r6, f"{UL}::toms748_scan [third call, no options]", "the earlier calls' options do not come back")
     except errs as e:
         ctx.unrecognised(r6, ul, "upper_limit (automatic)", f"not interpretable: {type(e).__name__}: {e}")
     # ---------------------------------------------------------------- toms748_scan directly: tolerances, and bracket extension at a level that is NOT 0.05
